@@ -227,7 +227,8 @@ class C02(Check):
         c1 = [("ret", i) for i in range(len(skeletons(1)))]
         d = [("cat", name) for name in CATALOGUE]
         tr = self.tree_cases()
-        ls = [("Ld-catalogue", d), ("La-unary", u), ("La-operator-table", a), ("Lb-compatibility", b), ("Lc-return-paths-depth1", c1),
+        ls = [("Ld-catalogue", d), ("La-unary", u), ("La-operator-table", a), ("La2-operator-table-inside-a-function", [c + ("@fn",) for c in u + a]),
+              ("Lb-compatibility", b), ("Lc-return-paths-depth1", c1),
               ("Le-depth2-operator-trees-typeof-vs-kind" + ("-every-11th" if tier == "quick" else ""), tr[::11] if tier == "quick" else tr)]
         c2 = [("ret2", i) for i, s in enumerate(skeletons(2)) if count_conds(s) <= 4]
         if tier == "quick":
@@ -241,6 +242,12 @@ class C02(Check):
         return {"case": list(case)}
 
     def source(self, case):
+        if case[-1] == "@fn":
+            # the same cell with the operand declarations and the operation inside one function body
+            src, n = self.source(case[:-1])
+            assert src.startswith(PRELUDE)
+            rest = src[len(PRELUDE):]
+            return PRELUDE + "cell = fn() {\n" + "".join("\t" + l + "\n" for l in rest.rstrip("\n").split("\n")) + "}\ncell()\n", n
         k = case[0]
         if k == "op":
             _, op, t1, t2 = case
